@@ -191,6 +191,15 @@ fn check_one(c: &One, obs: &mut Obs) {
             if bset(&o) != want {
                 obs.fail("offset-moves-every-side", format!("offset({n}) = {:?}, expected box {:?}", rt(&o), want));
             }
+            // per dimension: the two sides of a dimension that survives move by n also when the other dimension
+            // collapses; a collapsed dimension has no extent (its position is not asserted)
+            let (ox, oy, ow, oh) = (o.top_left.x as i64, o.top_left.y as i64, o.size.width as i64, o.size.height as i64);
+            let okx = if w + 2 * n > 0 { ox == x - n && ow == w + 2 * n } else { ow == 0 };
+            let oky = if h + 2 * n > 0 { oy == y - n && oh == h + 2 * n } else { oh == 0 };
+            obs.class_if((w + 2 * n > 0) != (h + 2 * n > 0), "offset-collapses-one-dimension");
+            if !okx || !oky {
+                obs.fail("offset-moves-every-side", format!("offset({n}) = {:?}: the sides of a surviving dimension must move by {n}, a collapsed dimension must be empty", rt(&o)));
+            }
         }
     }
     // resized: size is the new one, the anchor stays (centre anchors within one pixel)
